@@ -505,6 +505,10 @@ class C19(Prop):
       'hand-written specification table `required` (PgProps/C19.lean) = REQUIRED (harness/c19.py)',
       'modelled, not verified: the visitor, the scope manager and the head of evaluate (tied by '
       'T-AST/T-GATE extraction + correspondence); sandbox_call / run are outside the model',
+      'modelled, not verified: the tail of evaluate (PgModel/CodeTail.lean) over the statement language ints/None, '
+      'names, +, print, (multi-target) assignment, +=, pass; its plain semantics execAll is a hand-written big-step '
+      'semantics of that fragment of Python, tied by running plain exec, pg.coding.evaluate and the model on the same '
+      'generated programs (op mini / driver op tail); identity in the outputs filter is value inequality in the model',
   ]
   assumptions = ['NodeVisitor.visit dispatches every node without a visit_<Class> method to generic_visit',
                  'ast.iter_child_nodes enumerates exactly the children generic_visit descends into']
